@@ -52,6 +52,10 @@ WfStreams == {<<>>} \cup {<<a>> : a \in WfRecs} \cup {<<a, b>> : a \in WfRecs, b
              \cup (IF Tier = "t" THEN {<<a, b, c>> : a \in WfRecs, b \in WfRecs, c \in WfRecs} ELSE {})
 WfInit == \E s \in WfStreams : Start([s |-> s, g |-> 0, cut |-> PhysLen(s)])
 
+(* design-level "never loops": under weak fairness of its steps the decoder reaches its end on every input of the space *)
+LiveNear == NearInit /\ [][Next]_vars /\ WF_vars(Next)
+LiveWf == WfInit /\ [][Next]_vars /\ WF_vars(Next)
+
 (* code -> spec: observations recorded from the real decoder on concrete inputs (fixtures,     *)
 (* mutated streams) projected to abstract cases by the independent byte-level reader.          *)
 Obs == ndJsonDeserialize("obs.ndjson")
